@@ -730,6 +730,42 @@ def strip_charset(model: Model, fn: FunctionInfo) -> list[Lint]:
     return out
 
 
+_GETTER_MUTATORS = {"sort", "reverse", "append", "extend", "insert", "remove", "pop", "clear", "update", "add", "discard", "setdefault", "popitem"}
+
+
+def getter_side_effect(model: Model, fn: FunctionInfo) -> list[Lint]:
+    """A property, ``__eq__`` / ``__hash__`` / ``__lt__`` / ``__repr__`` / ``__str__`` / ``__len__`` / ``__contains__``
+    that changes the object it is asked about: reading must not write.  These run implicitly - in comparisons,
+    while matching records, in log messages - also on calls that are then REJECTED, so the object is changed by an
+    operation that is supposed to change nothing.  Filling a private cache attribute (a name starting with ``_``)
+    is not flagged here (memoisation has its own rule)."""
+    passive = fn.is_property or fn.name in ("__eq__", "__ne__", "__hash__", "__lt__", "__le__", "__gt__", "__ge__", "__repr__", "__str__", "__len__", "__contains__", "__iter__", "__bool__")
+    if not passive or fn.self_name is None:
+        return []
+    me = fn.self_name
+    out: list[Lint] = []
+
+    def on_self_field(e) -> str | None:
+        if isinstance(e, ast.Attribute) and isinstance(e.value, ast.Name) and e.value.id == me and not e.attr.startswith("_"):
+            return e.attr
+        if isinstance(e, ast.Subscript):
+            return on_self_field(e.value)
+        return None
+
+    for n in ast.walk(fn.node):
+        if isinstance(n, ast.Call) and isinstance(n.func, ast.Attribute) and n.func.attr in _GETTER_MUTATORS:
+            f = on_self_field(n.func.value)
+            if f:
+                out.append(Lint("getter-side-effect", fn, n.lineno, f, f"`{ast.unparse(n)[:50]}` inside {'the property' if fn.is_property else 'the special method'} {fn.name}: reading the object changes its `{f}` in place - also while a call that ends up rejected is still comparing records, so 'raises and changes nothing' no longer holds and the order of an object's lists depends on who looked at it"))
+        elif isinstance(n, (ast.Assign, ast.AugAssign, ast.AnnAssign)):
+            tgts = n.targets if isinstance(n, ast.Assign) else [n.target]
+            for t in tgts:
+                f = on_self_field(t)
+                if f:
+                    out.append(Lint("getter-side-effect", fn, n.lineno, f, f"`{ast.unparse(n)[:50]}` inside {'the property' if fn.is_property else 'the special method'} {fn.name}: reading the object rebinds / changes its `{f}`"))
+    return out
+
+
 def scan(model: Model, files: set[str] | None = None) -> tuple[list[Lint], int]:
     """All lints for the functions defined in ``files`` (relative paths under src/curies; None = everything)."""
     out: list[Lint] = []
@@ -749,4 +785,5 @@ def scan(model: Model, files: set[str] | None = None) -> tuple[list[Lint], int]:
         out += unbound_after_loop(model, fn)
         out += split_unpack(model, fn)
         out += strip_charset(model, fn)
+        out += getter_side_effect(model, fn)
     return out, n
